@@ -123,6 +123,8 @@ func (p *Program) callGraph() *CallGraph {
 		return p.cg
 	}
 	p.initCells()
+	p.cgBuilding = true
+	defer func() { p.cgBuilding = false }()
 	cg := &CallGraph{Out: map[*ssa.Function][]Edge{}, In: map[*ssa.Function][]Edge{}}
 	add := func(e Edge) {
 		if e.Callee == nil {
